@@ -5,7 +5,7 @@ export GOFLAGS=-mod=mod GOPROXY=off GOSUMDB=off GOTOOLCHAIN=local
 WT=/tmp/wt/confirm
 git -C /repo worktree remove --force $WT 2>/dev/null
 git -C /repo worktree add --detach $WT HEAD -q || exit 1
-for d in /tmp/mut/C*/; do
+for d in $(ls -d /tmp/mut/${ONLY:-C*}/); do
   id=$(basename $d)
   for m in m1 m2 m3 m4 m5 m6 m7 m8; do
     [ -f $d/$m.diff ] || continue; [ -d /verif/seeded/$id-$m ] && continue
